@@ -820,6 +820,8 @@ class World:
         owner = "%s.%s" % (cname, name)
         if kind == "alias":
             k, m = ms["of"].split(".")
+            if ms.get("via") == "attr":
+                return getattr(self.classes[k], m)  # what ``name = Base.member`` puts into the namespace
             return self.classes[k].__dict__[m]
         if kind == "prop":
 
